@@ -1,0 +1,13 @@
+//go:build !verif
+// +build !verif
+
+package zap
+
+// Verification hooks (see verif_on.go). With the `verif` build tag off these
+// are empty and inlined away; shipped behaviour is unchanged.
+
+func verifYield(site string) {}
+
+func verifPoolGet(pool string, obj interface{}) {}
+
+func verifPoolPut(pool string, obj interface{}) {}
